@@ -257,7 +257,10 @@ def run(ctx):
             ctx.reject({"case": cases[ci], "trace": t}, v["failed"], signature(cases[ci], t, v["failed"]))
     ctx.phase("hook_traces")
     from drivers import hooktrace
-    hooktrace.validate_events(ctx, hooktrace.traced_repo_tests(hooktrace.REPO_TESTS[4:5] if ctx.quick else hooktrace.REPO_TESTS[4:]), "C03")
+    # whole command-line runs with the hooks on: verify -> parse -> brew -> confidence as one event sequence
+    clis = [c for c in cases if c["kind"] == "cli"][: (3 if ctx.quick else 25)]
+    hooktrace.hook_phase(ctx, "C03", calls=[("cli run %d" % i, (lambda c=c: cli.run_cli(copy.deepcopy(c)))) for i, c in enumerate(clis)],
+                         repo_select=hooktrace.REPO_TESTS[4:5] if ctx.quick else hooktrace.REPO_TESTS[4:])
     # negative controls
     ctx.phase("negative_controls")
     crng = np.random.default_rng(ctx.seed + 7)
